@@ -99,7 +99,7 @@ func Specs() map[string]*PropSpec {
 		ID: "C08", Pkgs: []string{"./x/vesting/types", "./x/staking/keeper", "./x/vesting/keeper", "./app/ante/evm", "./precompiles/staking"},
 		Quick: []Inst{vt("VerifC08_LockedCoins", "nl", "2", "nv", "2"), vt("VerifC08_LockedCoins", "nl", "1", "nv", "2", "denoms", "2"), vt("VerifC09_Clawback", "nl", "2", "nv", "2"),
 			{Pkg: "x/staking/keeper", Fn: "VerifC08_Delegate", Params: pm("nv", "2")}, vk("VerifC09_MergeGrant", "lock", "2", "glock", "2"), vk("VerifC09_ClawbackMsg"), {Pkg: "app/ante/evm", Fn: "VerifC08_EthAnte", Params: pm("msgs", "2")},
-			{Pkg: "precompiles/staking", Fn: "VerifC08_PrecompileDelegate", Params: pm("nv", "2"), EngineReplay: true}},
+			{Pkg: "precompiles/staking", Fn: "VerifC08_PrecompileDelegate", Params: pm("nv", "2"), EngineReplay: true}, {Pkg: "precompiles/staking", Fn: "VerifC08_PrecompileCreateValidator", Params: pm(), EngineReplay: true}},
 		Wiring: []WiringFact{
 			{Kind: "calls", Fn: "(github.com/haqq-network/haqq/precompiles/staking.Precompile).Delegate", Callee: "github.com/haqq-network/haqq/x/staking/keeper.NewMsgServerImpl",
 				Why: "the staking precompile must delegate through Haqq's message-server wrapper (which refuses unvested coins), not through the SDK's"},
@@ -117,12 +117,14 @@ func Specs() map[string]*PropSpec {
 		Stubs:       []string{"c08AK", "c08BK", "c08Inner (records what reaches the SDK staking server)"},
 	}
 	m["C14"] = &PropSpec{
-		ID: "C14", Pkgs: []string{"./x/bank/keeper", "./app"},
+		ID: "C14", Pkgs: []string{"./x/bank/keeper", "./app", "./x/staking/keeper"},
 		Wiring: []WiringFact{
 			{Fn: "github.com/haqq-network/haqq/app.NewHaqq", Callee: "github.com/cosmos/cosmos-sdk/x/gov/keeper.NewKeeper", Arg: 3, Want: "*github.com/haqq-network/haqq/x/bank/keeper.BaseKeeper",
 				Why: "the gov keeper must burn deposits through Haqq's bank keeper wrapper", ProbePkg: "app", ProbeTest: "TestVerifWiringC14"},
 			{Fn: "github.com/haqq-network/haqq/app.NewHaqq", Callee: "github.com/haqq-network/haqq/x/staking/keeper.NewKeeper", Arg: 3, Want: "*github.com/haqq-network/haqq/x/bank/keeper.BaseKeeper",
 				Why: "the staking keeper must burn slashed stake through Haqq's bank keeper wrapper", ProbePkg: "app", ProbeTest: "TestVerifWiringC14"},
+			{Kind: "param", Fn: "github.com/haqq-network/haqq/x/staking/keeper.NewKeeper", Callee: "github.com/cosmos/cosmos-sdk/x/staking/keeper.NewKeeper", Arg: 3, Want: "bk",
+				Why: "Haqq's staking keeper wrapper must hand the bank keeper it was given to the SDK staking keeper unchanged (no adapter in between)", ProbePkg: "app", ProbeTest: "TestVerifWiringC14"},
 		},
 		Quick:    []Inst{{Pkg: "x/bank/keeper", Fn: "VerifC14_Burn", Params: pm()}},
 		Thorough: []Inst{{Pkg: "x/bank/keeper", Fn: "VerifC14_Burn", Params: pm()}},
@@ -153,10 +155,10 @@ func Specs() map[string]*PropSpec {
 	an := func(kv ...string) Inst { return Inst{Pkg: "app/ante", Fn: "VerifC06_Routes", Params: pm(kv...)} }
 	m["C06"] = &PropSpec{
 		ID: "C06", Pkgs: []string{"./app/ante", "./app/ante/evm"},
-		Quick:    []Inst{an("depth", "2", "width", "2", "top", "2"), an("depth", "8", "width", "1", "top", "1"), {Pkg: "app/ante/evm", Fn: "VerifC06_EthRouteTypes", Params: pm()}},
-		Thorough: []Inst{an("depth", "2", "width", "2", "top", "2"), an("depth", "3", "width", "2", "top", "1"), an("depth", "9", "width", "1", "top", "2"), {Pkg: "app/ante/evm", Fn: "VerifC06_EthRouteTypes", Params: pm()}},
+		Quick:    []Inst{an("depth", "2", "width", "2", "top", "2"), an("depth", "8", "width", "1", "top", "1"), {Pkg: "app/ante/evm", Fn: "VerifC06_EthRouteTypes", Params: pm()}, {Pkg: "app/ante", Fn: "VerifC06_ExtensionOptions", Params: pm("max", "3")}},
+		Thorough: []Inst{an("depth", "2", "width", "2", "top", "2"), an("depth", "3", "width", "2", "top", "1"), an("depth", "9", "width", "1", "top", "2"), {Pkg: "app/ante/evm", Fn: "VerifC06_EthRouteTypes", Params: pm()}, {Pkg: "app/ante", Fn: "VerifC06_ExtensionOptions", Params: pm("max", "4")}},
 		Bounds: map[string]string{
-			"quick":    "every transaction of <= 2 top-level messages, nesting depth <= 2 with <= 2 children per MsgExec (7 node kinds: exec, grant of eth / vesting-create / send, MsgEthereumTx, MsgCreateVestingAccount, MsgSend), plus single chains nested up to depth 8 (beyond the cap of 7); every list of <= 2 extension options over {eth, web3, dynamic-fee, unknown}",
+			"quick":    "every transaction of <= 2 top-level messages, nesting depth <= 2 with <= 2 children per MsgExec (7 node kinds: exec, grant of eth / vesting-create / send, MsgEthereumTx, MsgCreateVestingAccount, MsgSend), plus single chains nested up to depth 8 (beyond the cap of 7); every list of <= 2 extension options over {eth, web3, dynamic-fee, unknown}; on the Cosmos route (handler built with the application's extension-option checker) every list of <= 3 options after a leading dynamic-fee option: rejected exactly when some option is not the supported one",
 			"thorough": "additionally depth 3 x width 2 (1 top-level message) and chains to depth 9 with 2 top-level messages",
 		},
 		Outside:     []string{"the type assertions inside the individual eth-route decorators (they need keeper stubs; planned with the eth ante harnesses)", "wider / deeper forests than the bound", "decorators after the blocking ones (they can only reject more)"},
@@ -238,18 +240,20 @@ func Specs() map[string]*PropSpec {
 		Stubs:       []string{"sLedger", "c02Bank", "c04Srv (staking message server)", "authz keeper overrides"},
 	}
 	m["C01"] = &PropSpec{
-		ID: "C01", Pkgs: []string{"./x/evm/statedb", "./app/ante/evm", "./x/evm/types"},
+		ID: "C01", Pkgs: []string{"./x/evm/statedb", "./app/ante/evm", "./x/evm/types", "./x/evm/keeper"},
 		Quick: []Inst{{Pkg: "x/evm/statedb", Fn: "VerifC01_CommitOrder", Params: pm("ops", "2", "kinds", "ts"), EngineReplay: true},
-			{Pkg: "app/ante/evm", Fn: "VerifC01_NodeLocalConfig", Params: pm("msgs", "2")}, {Pkg: "x/evm/types", Fn: "VerifC01_TracerConfig", Params: pm()}},
+			{Pkg: "app/ante/evm", Fn: "VerifC01_NodeLocalConfig", Params: pm("msgs", "2")}, {Pkg: "x/evm/types", Fn: "VerifC01_TracerConfig", Params: pm()},
+			{Pkg: "x/evm/keeper", Fn: "VerifC01_BlockHashNoProcessState", Params: pm("lookups", "1"), EngineReplay: true}},
 		Thorough: []Inst{{Pkg: "x/evm/statedb", Fn: "VerifC01_CommitOrder", Params: pm("ops", "3", "kinds", "ts", "amts", "1", "vals", "2"), EngineReplay: true},
-			{Pkg: "app/ante/evm", Fn: "VerifC01_NodeLocalConfig", Params: pm("msgs", "3")}, {Pkg: "x/evm/types", Fn: "VerifC01_TracerConfig", Params: pm()}},
+			{Pkg: "app/ante/evm", Fn: "VerifC01_NodeLocalConfig", Params: pm("msgs", "3")}, {Pkg: "x/evm/types", Fn: "VerifC01_TracerConfig", Params: pm()},
+			{Pkg: "x/evm/keeper", Fn: "VerifC01_BlockHashNoProcessState", Params: pm("lookups", "2"), EngineReplay: true}},
 		Bounds: map[string]string{
-			"quick":    "StateDB.Commit after every program of <= 2 operations (transfers, SSTOREs) over 3 accounts sharing their first 16 address bytes and 2 slots: all iteration orders of the dirty-account and dirty-storage maps explored; the sequence of keeper writes is ascending in (address, key) for each; node-local configuration: the eth gas-consume decorator in DeliverTx mode on <= 2 messages (any gas, prices, base fee, block gas limit) under two arbitrary values of the operator's max-tx-gas-wanted setting gives the same verdict, transaction gas limit and priority (relational check); building the EVM tracer from the node-local evm.tracer option succeeds for every option value and for calls and contract creations",
-			"thorough": "<= 3 operations",
+			"quick":    "StateDB.Commit after every program of <= 2 operations (transfers, SSTOREs) over 3 accounts sharing their first 16 address bytes and 2 slots: all iteration orders of the dirty-account and dirty-storage maps explored; the sequence of keeper writes is ascending in (address, key) for each; node-local configuration: the eth gas-consume decorator in DeliverTx mode on <= 2 messages (any gas, prices, base fee, block gas limit) under two arbitrary values of the operator's max-tx-gas-wanted setting gives the same verdict, transaction gas limit and priority (relational check); building the EVM tracer from the node-local evm.tracer option succeeds for every option value and for calls and contract creations; BLOCKHASH (Keeper.GetHashFn, keeper built by the real NewKeeper): a replica that served <= 1 earlier lookup (any of 2 heights, any subset of the historical entries kept at that time) answers a lookup exactly as a freshly started replica over the same consensus state (any subset kept now, present entries answer their header hash, pruned ones the zero hash)",
+			"thorough": "<= 3 operations; <= 2 earlier BLOCKHASH lookups",
 		},
 		Outside:     []string{"equality of app hashes of two replicas over block histories (BaseApp, IAVL, all modules)", "goroutine-fed counters (app/tps_counter.go): concurrency", "fixed Begin/EndBlocker ordering and sorted module-account construction in app.go (construction-time facts)"},
-		Assumptions: []string{"Go map iteration order modelled as an arbitrary permutation chosen per range statement", "counterexamples are confirmed by concrete re-execution with the same iteration order (a native run cannot fix the order)"},
-		Stubs:       []string{"sLedger"},
+		Assumptions: []string{"Go map iteration order modelled as an arbitrary permutation chosen per range statement", "counterexamples are confirmed by concrete re-execution with the same iteration order (a native run cannot fix the order)", "BLOCKHASH harness: tmtypes.HeaderFromProto / Header.Hash replaced by an injective tag of (height, app hash byte); the staking keeper's historical entries are a map stub; sync.Map modelled as a plain map (single-threaded)"},
+		Stubs:       []string{"sLedger", "c01SK (historical entries)"},
 	}
 	ps := func(fn string, kv ...string) Inst { return Inst{Pkg: "precompiles/staking", Fn: fn, Params: pm(kv...), EngineReplay: true} }
 	m["C04"] = &PropSpec{
@@ -269,7 +273,7 @@ func Specs() map[string]*PropSpec {
 	m["C16"] = &PropSpec{
 		ID: "C16", Pkgs: []string{"./precompiles/staking", "./precompiles/bank", "./precompiles/distribution", "./precompiles/ics20"},
 		Quick: []Inst{ps("VerifC04_Identity"), {Pkg: "precompiles/bank", Fn: "VerifC16_Bank", Params: pm(), EngineReplay: true}, {Pkg: "precompiles/distribution", Fn: "VerifC04_Distribution", Params: pm(), EngineReplay: true},
-			{Pkg: "precompiles/ics20", Fn: "VerifC04_Ics20", Params: pm("checkSupply", "0"), EngineReplay: true}, ps("VerifC16_StakingQueries", "entries", "2")},
+			{Pkg: "precompiles/ics20", Fn: "VerifC04_Ics20", Params: pm("checkSupply", "0"), EngineReplay: true}, ps("VerifC16_StakingQueries", "entries", "2"), {Pkg: "precompiles/staking", Fn: "VerifC08_PrecompileCreateValidator", Params: pm(), EngineReplay: true}},
 		Thorough: []Inst{ps("VerifC16_StakingQueries", "entries", "3"), ps("VerifC04_Identity"), {Pkg: "precompiles/bank", Fn: "VerifC16_Bank", Params: pm(), EngineReplay: true}, {Pkg: "precompiles/distribution", Fn: "VerifC04_Distribution", Params: pm(), EngineReplay: true},
 			{Pkg: "precompiles/ics20", Fn: "VerifC04_Ics20", Params: pm("checkSupply", "0"), EngineReplay: true}},
 		Bounds: map[string]string{
